@@ -431,6 +431,74 @@ def run_repl_history(ctx, moddir, hist, r):
             prev_fail = residue_kind(name)
 
 
+def scopes_of(it):
+    out, e = [], it.environment
+    while e is not None and e not in out:
+        out.append(e)
+        e = getattr(e, "parent", None)
+    if it.base_environment not in out:
+        out.append(it.base_environment)
+    return out
+
+
+def mutable_containers(it):
+    """id -> (name path, type name) of every list / set / map / object reachable from the interpreter's own scopes"""
+    import ckl.values as V
+    kinds = (V.ValueList, V.ValueSet, V.ValueMap, V.ValueObject)
+    seen = {}
+
+    def walk(v, path, depth):
+        if not isinstance(v, kinds) or id(v) in seen or depth > 4:
+            return
+        seen[id(v)] = (path, type(v).__name__)
+        payload = getattr(v, "value", None)
+        items = list(payload.values()) + list(payload.keys()) if isinstance(payload, dict) else list(payload or [])
+        for x in items[:200]:
+            walk(x, path + "/..", depth + 1)
+    for e in scopes_of(it):
+        for k, v in list(e.map.items()):
+            walk(v, k, 0)
+    return seen
+
+
+def run_isolation(ctx):
+    """two interpreters of one process are two sessions: nothing that one of them can edit in place is reachable from the
+    other one's scopes, and what one does to the values it was born with (whatever the interpreter itself binds: paths,
+    argument lists, registries) does not show in the other"""
+    import ckl.functions
+    first_use = "require Math; require List; require IO; def own_ = [1]; 1"
+    for sa in (True, False):
+        for la in (True, False):
+            for sb in (True, False):
+                for lb in (True, False):
+                    a, _oa = core.new_interpreter(secure=sa, legacy=la)
+                    b, _ob = core.new_interpreter(secure=sb, legacy=lb)
+                    for when in ("fresh", "used"):
+                        if when == "used":
+                            for it in (a, b):
+                                observe(lambda: it.interpret(first_use, "iso"), 3000000)
+                        ca, cb = mutable_containers(a), mutable_containers(b)
+                        ctx.count("isolation_pairs")
+                        ctx.count("isolation_containers_walked", len(ca) + len(cb))
+                        ctx.case(("isolation", sa, la, sb, lb, when), nontrivial=True)
+                        for i in set(ca) & set(cb):
+                            ctx.violation("C10:interpreters-share-a-value:%s" % ca[i][0].split("/")[0],
+                                          "two interpreters (secure=%s legacy=%s / secure=%s legacy=%s, %s) both reach the same %s through %s and %s" % (
+                                              sa, la, sb, lb, when, ca[i][1], ca[i][0], cb[i][0]), {})
+                    # behaviourally: every container name of A's scopes edited in place through the language; B renders as before
+                    names = sorted(set(k for e in scopes_of(a) for k, v in e.map.items() if id(v) in mutable_containers(a) and k.isidentifier()))
+                    for nm in names:
+                        before = observe(lambda: b.interpret("do string(%s) catch all 'undefined' end" % nm, "iso"), 3000000)
+                        for ed in ("append(%s, 'LEAK')", "put(%s, 'LEAK', 1)", "%s->LEAK = 1", "%s['LEAK'] = 1"):
+                            observe(lambda: a.interpret("do %s catch all NULL end" % (ed % nm), "iso"), 3000000)
+                        after = observe(lambda: b.interpret("do string(%s) catch all 'undefined' end" % nm, "iso"), 3000000)
+                        ctx.count("isolation_edits")
+                        if before.kind == "value" and (after.kind != "value" or str(after.value) != str(before.value)):
+                            ctx.violation("C10:edit-in-one-interpreter-shows-in-another:%s" % nm,
+                                          "%s edited in place in one interpreter; the other one rendered it as %s before and %s afterwards" % (
+                                              nm, core.safe_str(before.value, 100), core.safe_str(getattr(after, "value", after.kind), 100)), {})
+
+
 def plan(tier, seed):
     specs = []
     n1 = 3 if tier == "quick" else 4
@@ -455,6 +523,7 @@ def run_shard(spec, ctx):
     if spec["kind"] == "escaping":
         from cklmon import sessions
         sessions.run_residue(ctx, "C10")
+        run_isolation(ctx)
         return sessions.run_escaping(ctx, "C10")
     moddir = os.path.join(os.getcwd(), "mods")
     write_modules(moddir)
@@ -528,6 +597,8 @@ def finalize(merged, tier):
         reasons.append("history enumeration incomplete (%d/%d, %d/%d)" % (one_done, one_total, two_done, two_total))
     if c.get("probes", 0) == 0 or c.get("random_histories", 0) == 0:
         reasons.append("no probes / random histories")
+    if c.get("isolation_pairs", 0) == 0 or c.get("isolation_containers_walked", 0) == 0:
+        reasons.append("no pairs of interpreters walked for shared values")
     if c.get("repl_calls", 0) == 0 or c.get("repl_continuations", 0) == 0:
         reasons.append("no REPL sessions / continuation lines observed")
     return extra, reasons
